@@ -236,11 +236,11 @@ class Runner:
             self.chk.violation(key, "[stage %s] %s: %s" % (stage, key, what), replay)
 
     # -- h_ed (scenario + queries) under the sanitizers, query by query attribution ----------------------------
-    def ed_queries(self, stage, name, symm, text, qs, sample=True):
+    def ed_queries(self, stage, name, symm, text, qs, sample=True, variant="asan"):
         chk = self.chk
         pending = list(qs)
         while pending:
-            r = edlib.run(text, pending, variant="asan", oracle=False, timeout=900)
+            r = edlib.run(text, pending, variant=variant, oracle=False, timeout=900)
             for t in r.impl:
                 chk.case(stage + name + symm + " ".join(t[:6]), "%s:%s symm=%s %s" % (stage, name, symm, t[0]), True,
                          {"stage": stage, "family": name, "symm": symm, "record": " ".join(t[:8])} if (sample and len(chk.samples) < 2) else None)
@@ -252,7 +252,7 @@ class Runner:
                 break
             culprit = None
             for qi, ql in enumerate(pending):
-                r1 = edlib.run(text, [ql], variant="asan", oracle=False, timeout=600)
+                r1 = edlib.run(text, [ql], variant=variant, oracle=False, timeout=600)
                 if r1.crash:
                     culprit = (qi, ql, r1.crash)
                     break
@@ -265,8 +265,11 @@ class Runner:
             rep = sanitizer_report(crash[1])
             kind = rep[0] if rep else "crash rc=%s" % crash[0]
             fn = rep[1] if rep else "?"
+            am = re.search(r'([\w./+-]+):(\d+): [^\n]*Assertion `([^\n\']+)\' failed', crash[1])
+            if am and not rep:
+                kind, fn = "assertion failed", "%s:%s `%s`" % (os.path.basename(am.group(1)), am.group(2), am.group(3)[:80])
             self.report(stage, kind, fn, "scenario %s (symm %s), query `%s`" % (name, symm, bad),
-                        {"harness": "h_ed (asan variant)", "scenario": text, "query": bad, "stderr_tail": crash[1][:4000]})
+                        {"harness": "h_ed (%s variant)" % variant, "scenario": text, "query": bad, "stderr_tail": crash[1][:4000]})
             pending = pending[qi + 1:]
 
     # -- h_c17 histories ------------------------------------------------------------------------------------------
@@ -441,6 +444,22 @@ def run(chk):
         name, text, n, info = fam(rng, symm)
         R.ed_queries("F", name, symm, text, queries_for(n, rng, quick))
 
+    # ---- A: the same kind of scenarios through an assertion-enabled build (no NDEBUG: what a plain `cmake /repo` gives; the
+    # library's own assert()s and Eigen's index / size assertions are active).  An abort is a violation.
+    edlib.binaries("assert")
+    for k in range(4 if quick else 30):
+        fam = fams[(k * 2 + 1) % len(fams)]
+        symm = "ignore" if k % 2 == 0 or fam in (scen.pairing, scen.three_orbital_small) else "default"
+        name, text, n, info = fam(rng, symm)
+        R.ed_queries("A", name, symm, text, queries_for(n, rng, quick), sample=False, variant="assert")
+    # free models with a degenerate spectrum (most cancellations inside the term lists)
+    R.ed_queries("A", "free-ring", "default",
+                 "site A 1 2\nsite B 1 2\n" + "".join("term 2 %s 1 %s 0 %d 0 %s 0 %d\n" % (v, a, sa, b, sb) for (v, a, sa, b, sb) in
+                     [("-0.05", "A", 0, "A", 0), ("-0.05", "A", 1, "A", 1), ("-0.05", "B", 0, "B", 0), ("-0.05", "B", 1, "B", 1),
+                      ("0.25", "A", 0, "A", 1), ("0.25", "A", 1, "A", 0), ("0.25", "A", 1, "B", 0), ("0.25", "B", 0, "A", 1),
+                      ("0.25", "B", 0, "B", 1), ("0.25", "B", 1, "B", 0), ("0.25", "B", 1, "A", 0), ("0.25", "A", 0, "B", 1)]) + "symm default\nbeta 5\n",
+                 ["chi 0 0 1 1 0 2 0 0 0 1 -2 1", "chi 0 0 1 2 0 2 0 -1 0 1 0 1", "gf 0 1 2 0 0.7 0.25 -1.5", "susc 0 1 1 0 0 0 1 -2"], sample=False, variant="assert")
+
     # ---- S: call-sequence variety
     for (name, text, n) in seq_models(quick):
         R.sequences("S", h17, name, text, seq_lines(n, rng, quick))
@@ -506,7 +525,7 @@ def run(chk):
         "not_covered_by_any_theorem": "Eigen/Boost/MPI internals, object lifetimes, uninitialised reads outside the modelled tables, data races"}
     chk.extra["testing_part"] = {"cases_per_stage": R.stage_counts,
                                  "stages": {"W": "witness inputs per switch (ASan+UBSan)", "F": "scenario families via h_ed (ASan+UBSan)",
-                                            "S": "call-sequence variety via h_c17 (ASan+UBSan)", "S-pending": "probes of the PENDING findings",
+                                            "S": "call-sequence variety via h_c17 (ASan+UBSan)", "A": "scenario families via h_ed built WITHOUT NDEBUG (library and Eigen assertions active)", "S-pending": "probes of the PENDING findings",
                                             "H": "harnesses of C05/C13/C15 (ASan+UBSan)", "M": "MPI np=2,3[,4] via h_c06 and h_c16 (ASan+UBSan)",
                                             "V": "Valgrind memcheck, non-instrumented build"}}
     chk.extra["pending_findings"] = [{k: v for k, v in h.items() if k != "replay"} for h in R.pending_hits]
@@ -523,6 +542,7 @@ def run(chk):
 
 
 def setup():
+    edlib.binaries("assert")
     for h in ("h_ed", "h_c15", "h_c05", "h_c13", "h_c17", "h_c18", "h_c20", "h_c06", "h_c16"):
         pv.build_harness(h, "asan")
     pv.build_harness("h_c17", "real")
